@@ -167,7 +167,7 @@ def run_concurrent(E, st, progs, clock_mode='step', policy=None, memory_limit=No
             for i, (cmd, inp) in enumerate(progs[c]):
                 f = E.fn('MemcStore', cmd)
                 r = yield ('call', f, cmd_args(E, w, cmd, inp))
-                results[c][i] = r
+                results[c][i] = r if r is not None else UNIT
             return None
         return body()
     threads = []
